@@ -434,7 +434,7 @@ def mol_case(name, scale, thr, cmax=10):
         # the loop always prepares one candidate beyond the accepted vectors: need+1 rows; +-2 rows of round-off grey zone
         if need + 1 > cmax * nao - 2:
             return "", dict(base, n_vectors=0, raised=True, n_vectors_needed=need, exception=repr(e)[:120])
-        return "raises-although-buffer-sufficient", dict(base, n_vectors=0, n_vectors_needed=need, exception=repr(e)[:300])
+        return "raises-although-buffer-sufficient", dict(base, n_vectors=0, raised=True, n_vectors_needed=need, exception=repr(e)[:300])
     rec = L.T @ L
     err = np.abs(eri - rec)
     tol = thr + ROUND * elem_scale(eri)
